@@ -79,9 +79,31 @@ def run_coq(ctx, P):
             if not any(b.endswith(f) for b in broken_files) and os.path.exists(os.path.join(vlib.COQ, "theories", f[:-2] + ".vo")):
                 ok_names += theorem_names(os.path.join(vlib.COQ, "theories", f))
         discharged = len(ok_names) if all(x["file"].startswith("theories/Properties_") for x in fails) else 0
+    chk_note = []
+    if rc == 0 and ctx.tier == "thorough" and not P.get("no_coqchk"):
+        # independent re-check of the compiled files and everything they depend on
+        for f in files:
+            mod = "Upa." + f[:-2]
+            try:
+                rc3, out3, secs3 = vlib.run(["coqchk", "-o", "-silent", "-Q", "theories", "Upa", mod], cwd=vlib.COQ, timeout=3600)
+            except Exception as e:
+                rc3, out3, secs3 = 1, "coqchk did not finish: %r" % (e,), 0
+            m = re.search(r"\* Axioms:(.*?)\n\s*\n\* Constants/Inductives relying on type-in-type:(.*?)\n", out3, re.S)
+            ax = m.group(1).strip() if m else "?"
+            chk_note.append("coqchk -o %s: rc=%s, axioms: %s (%.0fs)" % (mod, rc3, " ".join(ax.split()), secs3))
+            if rc3 != 0:
+                rp = vlib.write_replay(pid, "coqchk_" + f[:-2], {"kind": "independent-checker-rejects", "module": mod, "output_tail": out3[-3000:]})
+                out["violations"].append((rp, "coqchk rejects %s" % mod, True))
+            elif ax not in ("<none>", "?"):
+                names_ax = [a for a in ax.split() if a and not a.startswith("<")]
+                bad_ax = [a for a in names_ax if a.split(".")[-1] not in allowed_short]
+                if bad_ax:
+                    rp = vlib.write_replay(pid, "coqchk_axioms_" + f[:-2], {"kind": "development-not-closed", "axioms": bad_ax})
+                    out["violations"].append((rp, "coqchk lists axioms outside the allow-list: %s" % bad_ax, True))
     tb = ["Coq 8.16.1 kernel (coqc, full .vo build), vm_compute for finite sweeps; no native_compute",
           "Print Assumptions: %d theorem(s) 'Closed under the global context'%s" % (closed, "" if not axioms else "; axioms listed: " + ", ".join(sorted(axioms)))]
     tb += ["axiom (Coq standard library): " + a for a in sorted(axioms) if a not in foreign]
+    tb += chk_note
     tb += P.get("trusted_base", [])
     out["coverage"] = {"obligations": obligations, "discharged": discharged,
                        "checker_cmd": "cd /verif/coq && coq_makefile -f _CoqProject -o Makefile && make -k -j16 %s   # coqc 8.16.1; then coqc on each property file for Print Assumptions" % " ".join(targets),
